@@ -35,7 +35,7 @@ inductive Esc where
   | dig | word | space | nameStart | nameChar
   | cat (name : String)
   | block (name : String)
-deriving Repr, BEq
+deriving Repr, BEq, DecidableEq
 
 def Esc.mem : Esc → Char → Bool
   | .dig, c => Unicode.isXsdDigit c
@@ -52,7 +52,7 @@ inductive CItem where
   | ch (c : Char)
   | range (lo hi : Char)
   | esc (neg : Bool) (e : Esc)
-deriving Repr, BEq
+deriving Repr, BEq, DecidableEq
 
 def CItem.mem : CItem → Char → Bool
   | .ch a, c => a == c
@@ -84,7 +84,7 @@ inductive Pat where
   | cat (a b : Pat)
   | rep (p : Pat) (lo : Nat) (hi : Option Nat)
   | group (p : Pat)
-deriving Repr
+deriving Repr, BEq
 
 /-- XSD `.` = `[^\n\r]` -/
 def dotMem (c : Char) : Bool := !(c == '\n' || c == '\r')
@@ -108,25 +108,51 @@ inductive EscTok where
 
 def singleEscChars : List Char := "\\|.?*+(){}-[]^$".toList
 
+/-- The two concrete syntaxes this file reads.  `xsd` is the grammar of the Recommendation (the spec of C18).  `pcre` is the
+    subset of PCRE2 syntax that `lys_compile_type_pattern_check` emits for patterns on which the two syntaxes agree
+    (`XsdRe/Pcre.lean`, `Props/C18Sem.lean`): the same productions minus the constructs that PCRE2 does not have or reads
+    differently, plus `\x{H…}`.  Every construct the `pcre` dialect accepts is given the meaning PCRE2 documents for it
+    under the compile options of the source (`Pat.toRegex`). -/
+structure Dialect where
+  /-- a raw `^` / `$` outside a character class is an ordinary character (XSD); in PCRE2 they are assertions, which the
+      subset does not contain -/
+  rawAnchors : Bool
+  /-- `\i \I \c \C \w \W \s \S` (PCRE2: `\i` does not exist, `\c` is a control escape, `\w \s` mean something else) -/
+  multiEsc : Bool
+  /-- `\p{IsBlock}` / `\P{IsBlock}` (PCRE2 has no such property names) -/
+  isBlocks : Bool
+  /-- class subtraction `[a-z-[aeiou]]` (PCRE2 10.42 has no nested classes) -/
+  subtraction : Bool
+  /-- `\x{H…}` (not XSD) -/
+  hexEsc : Bool
+  /-- largest number in a `{n,m}` quantifier (PCRE2: 65535) -/
+  maxQuant : Option Nat
+deriving Repr, BEq, DecidableEq
+
+def Dialect.xsd : Dialect := { rawAnchors := true, multiEsc := true, isBlocks := true, subtraction := true, hexEsc := false, maxQuant := none }
+def Dialect.pcre : Dialect := { rawAnchors := false, multiEsc := false, isBlocks := false, subtraction := false, hexEsc := true, maxQuant := some 65535 }
+
 def isNameCh (c : Char) : Bool := c.isAlphanum || c == '-'
 
-/-- after `\p` / `\P`: `{Name}` -/
+/-- after `\p` / `\P`: `{Name}`; `IsX` names a block, anything else a general category -/
 def parseProp (neg : Bool) : List Char → Except ReErr (EscTok × List Char)
   | '{' :: r =>
     let (nm, r') := r.span isNameCh
     match r' with
     | '}' :: r'' =>
-      let name := String.ofList nm
-      if name.startsWith "Is" then
-        let b := (name.drop 2).toString
-        if (Unicode.blockRanges b).isSome then .ok (.cls neg (.block b), r'') else .error (.syn "unknown block")
-      else if Unicode.categoryNames.contains name then .ok (.cls neg (.cat name), r'')
-      else .error (.syn "unknown category")
+      match nm with
+      | 'I' :: 's' :: b =>
+        let bn := String.ofList b
+        if (Unicode.blockRanges bn).isSome then .ok (.cls neg (.block bn), r'') else .error (.syn "unknown block")
+      | _ =>
+        let name := String.ofList nm
+        if Unicode.categoryNames.contains name then .ok (.cls neg (.cat name), r'')
+        else .error (.syn "unknown category")
     | _ => .error (.syn "malformed \\p")
   | _ => .error (.syn "malformed \\p")
 
-/-- the text after a backslash -/
-def parseEscape : List Char → Except ReErr (EscTok × List Char)
+/-- the text after a backslash (all escapes of the XSD grammar) -/
+def parseEscape0 : List Char → Except ReErr (EscTok × List Char)
   | [] => .error (.syn "trailing backslash")
   | 'n' :: r => .ok (.lit '\n', r)
   | 'r' :: r => .ok (.lit '\r', r)
@@ -145,12 +171,44 @@ def parseEscape : List Char → Except ReErr (EscTok × List Char)
   | 'P' :: r => parseProp true r
   | c :: r => if singleEscChars.contains c then .ok (.lit c, r) else .error (.syn "unknown escape")
 
+/-- is the escape part of the dialect? -/
+def EscTok.allowed (d : Dialect) : EscTok → Bool
+  | .lit _ => true
+  | .cls _ .dig => true
+  | .cls _ (.cat _) => true
+  | .cls _ (.block _) => d.isBlocks
+  | .cls _ _ => d.multiEsc
+
+def hexDigitVal (c : Char) : Option Nat :=
+  if '0' ≤ c ∧ c ≤ '9' then some (c.toNat - 48)
+  else if 'a' ≤ c ∧ c ≤ 'f' then some (c.toNat - 87)
+  else if 'A' ≤ c ∧ c ≤ 'F' then some (c.toNat - 55)
+  else none
+
+/-- after `\x{`: hexadecimal digits and `}`; the value must be a Unicode scalar value -/
+def parseHex (s : List Char) : Except ReErr (EscTok × List Char) :=
+  let (ds, r) := s.span fun c => (hexDigitVal c).isSome
+  match r with
+  | '}' :: r' =>
+    let v := ds.foldl (fun a c => a * 16 + (hexDigitVal c).getD 0) 0
+    if ds.isEmpty || ds.length > 6 || !(Nat.isValidChar v) then .error (.syn "\\x value") else .ok (.lit (Char.ofNat v), r')
+  | _ => .error (.syn "malformed \\x")
+
+/-- the text after a backslash, in dialect `d` -/
+def parseEscape (d : Dialect) (s : List Char) : Except ReErr (EscTok × List Char) :=
+  match s with
+  | 'x' :: '{' :: r => if d.hexEsc then parseHex r else .error (.syn "unknown escape")
+  | _ =>
+    match parseEscape0 s with
+    | .ok (t, r) => if t.allowed d then .ok (t, r) else .error (.syn "escape outside the dialect")
+    | .error e => .error e
+
 def parseNat (s : List Char) : Option (Nat × List Char) :=
   let (ds, r) := s.span Char.isDigit
   if ds.isEmpty then none else some (ds.foldl (fun a d => a * 10 + (d.toNat - 48)) 0, r)
 
-/-- optional quantifier -/
-def parseQuant : List Char → Except ReErr (Option (Nat × Option Nat) × List Char)
+/-- optional quantifier (all forms of the XSD grammar) -/
+def parseQuant0 : List Char → Except ReErr (Option (Nat × Option Nat) × List Char)
   | '*' :: r => .ok (some (0, none), r)
   | '+' :: r => .ok (some (1, none), r)
   | '?' :: r => .ok (some (0, some 1), r)
@@ -168,6 +226,18 @@ def parseQuant : List Char → Except ReErr (Option (Nat × Option Nat) × List 
       | _ => .error (.syn "quantity")
   | s => .ok (none, s)
 
+/-- the numbers of a quantifier are within the limit of the dialect -/
+def quantAllowed (d : Dialect) (lo : Nat) (hi : Option Nat) : Bool :=
+  match d.maxQuant with
+  | none => true
+  | some M => decide (lo ≤ M) && (match hi with | none => true | some m => decide (m ≤ M))
+
+/-- optional quantifier, in dialect `d` -/
+def parseQuant (d : Dialect) (s : List Char) : Except ReErr (Option (Nat × Option Nat) × List Char) :=
+  match parseQuant0 s with
+  | .ok (some (lo, hi), r) => if quantAllowed d lo hi then .ok (some (lo, hi), r) else .error (.syn "quantity too big")
+  | x => x
+
 def mkCat : List Pat → Pat
   | [] => .eps
   | [p] => p
@@ -179,109 +249,116 @@ def mkAlt : List Pat → Pat
   | p :: r => .alt p (mkAlt r)
 
 /-- the upper end of a range `lo-` -/
-def parseRangeHi : List Char → Except ReErr (Char × List Char)
+def parseRangeHi (d : Dialect) : List Char → Except ReErr (Char × List Char)
   | [] => .error (.syn "unterminated class")
   | '\\' :: r => do
-    let (t, r') ← parseEscape r
+    let (t, r') ← parseEscape d r
     match t with
     | .lit c => .ok (c, r')
     | .cls _ _ => .error (.syn "class escape as range end")
   | c :: r => if c == '[' || c == ']' || c == '-' then .error (.syn "range end") else .ok (c, r)
 
 /-- after one literal class member `lo`: is it the start of a range? -/
-def parseRangeOrChar (lo : Char) (r : List Char) : Except ReErr (CItem × List Char) :=
+def parseRangeOrChar (d : Dialect) (lo : Char) (r : List Char) : Except ReErr (CItem × List Char) :=
   match r with
   | '-' :: '[' :: _ => .ok (.ch lo, r)
   | '-' :: ']' :: _ => .ok (.ch lo, r)
   | '-' :: r2 => do
-    let (hi, r3) ← parseRangeHi r2
+    let (hi, r3) ← parseRangeHi d r2
     if lo ≤ hi then .ok (.range lo hi, r3) else .error (.syn "range out of order")
   | _ => .ok (.ch lo, r)
 
 mutual
 /-- after `[` -/
-def parseClass : Nat → List Char → Except ReErr (CClass × List Char)
+def parseClass (d : Dialect) : Nat → List Char → Except ReErr (CClass × List Char)
   | 0, _ => .error .fuel
   | f + 1, s =>
     match s with
-    | '^' :: r => parseItems f true [] r
-    | _ => parseItems f false [] s
+    | '^' :: r => parseItems d f true [] r
+    | _ => parseItems d f false [] s
 
-def parseItems : Nat → Bool → List CItem → List Char → Except ReErr (CClass × List Char)
+def parseItems (d : Dialect) : Nat → Bool → List CItem → List Char → Except ReErr (CClass × List Char)
   | 0, _, _, _ => .error .fuel
   | f + 1, neg, acc, s =>
     match s with
     | [] => .error (.syn "unterminated class")
     | ']' :: r => if acc.isEmpty then .error (.syn "empty class") else .ok ([⟨neg, acc⟩], r)
     | '-' :: '[' :: r =>
-      if acc.isEmpty then .error (.syn "subtraction from nothing") else do
-        let (sub, r') ← parseClass f r
+      if !d.subtraction then .error (.syn "class subtraction outside the dialect")
+      else if acc.isEmpty then .error (.syn "subtraction from nothing") else do
+        let (sub, r') ← parseClass d f r
         match r' with
         | ']' :: r'' => .ok (⟨neg, acc⟩ :: sub, r'')
         | _ => .error (.syn "text after subtrahend")
     | '[' :: _ => .error (.syn "[ in class")
     | '\\' :: r => do
-      let (t, r') ← parseEscape r
+      let (t, r') ← parseEscape d r
       match t with
-      | .cls n e => parseItems f neg (acc ++ [.esc n e]) r'
+      | .cls n e => parseItems d f neg (acc ++ [.esc n e]) r'
       | .lit c => do
-        let (it, r'') ← parseRangeOrChar c r'
-        parseItems f neg (acc ++ [it]) r''
+        let (it, r'') ← parseRangeOrChar d c r'
+        parseItems d f neg (acc ++ [it]) r''
     | '-' :: r =>
       match r with
-      | ']' :: _ => parseItems f neg (acc ++ [.ch '-']) r
-      | _ => if acc.isEmpty then parseItems f neg [.ch '-'] r else .error (.syn "- inside class")
+      | ']' :: _ => parseItems d f neg (acc ++ [.ch '-']) r
+      | _ => if acc.isEmpty then parseItems d f neg [.ch '-'] r else .error (.syn "- inside class")
     | c :: r => do
-      let (it, r') ← parseRangeOrChar c r
-      parseItems f neg (acc ++ [it]) r'
+      let (it, r') ← parseRangeOrChar d c r
+      parseItems d f neg (acc ++ [it]) r'
 end
 
 mutual
 /-- regExp: branches separated by `|`, up to end of input or the closing `)` -/
-def parseSeq : Nat → Bool → List Pat → List Pat → List Char → Except ReErr (Pat × List Char)
+def parseSeq (d : Dialect) : Nat → Bool → List Pat → List Pat → List Char → Except ReErr (Pat × List Char)
   | 0, _, _, _, _ => .error .fuel
   | f + 1, inGroup, alts, cur, s =>
     match s with
     | [] => if inGroup then .error (.syn "missing )") else .ok (mkAlt (alts ++ [mkCat cur]), [])
     | ')' :: r => if inGroup then .ok (mkAlt (alts ++ [mkCat cur]), r) else .error (.syn "unbalanced )")
-    | '|' :: r => parseSeq f inGroup (alts ++ [mkCat cur]) [] r
+    | '|' :: r => parseSeq d f inGroup (alts ++ [mkCat cur]) [] r
     | _ => do
-      let (atom, r1) ← parseAtom f s
-      let (q, r2) ← parseQuant r1
+      let (atom, r1) ← parseAtom d f s
+      let (q, r2) ← parseQuant d r1
       let piece := match q with
         | none => atom
         | some (lo, hi) => .rep atom lo hi
-      parseSeq f inGroup alts (cur ++ [piece]) r2
+      parseSeq d f inGroup alts (cur ++ [piece]) r2
 
-def parseAtom : Nat → List Char → Except ReErr (Pat × List Char)
+def parseAtom (d : Dialect) : Nat → List Char → Except ReErr (Pat × List Char)
   | 0, _ => .error .fuel
   | f + 1, s =>
     match s with
     | [] => .error (.syn "atom expected")
     | '(' :: r => do
-      let (p, r') ← parseSeq f true [] [] r
+      let (p, r') ← parseSeq d f true [] [] r
       .ok (.group p, r')
     | '[' :: r => do
-      let (cc, r') ← parseClass f r
+      let (cc, r') ← parseClass d f r
       .ok (.cls cc, r')
     | '.' :: r => .ok (.dot, r)
     | '\\' :: r => do
-      let (t, r') ← parseEscape r
+      let (t, r') ← parseEscape d r
       match t with
       | .lit c => .ok (.chr c, r')
       | .cls n e => .ok (.esc n e, r')
     | c :: r =>
       if c == '?' || c == '*' || c == '+' || c == '{' || c == '}' || c == ']' then .error (.syn "metacharacter as atom")
+      else if !d.rawAnchors && (c == '^' || c == '$') then .error (.syn "assertion outside the dialect")
       else .ok (.chr c, r)
 end
 
 def decodeUtf8 (bs : Bytes) : Option (List Char) :=
   (String.fromUTF8? (ByteArray.mk bs.toArray)).map String.toList
 
-def parseChars (cs : List Char) : Except ReErr Pat :=
-  match parseSeq (2 * cs.length + 4) false [] [] cs with
+/-- a whole pattern in dialect `d`; fuel: `2 * length + 2` suffices for `parseSeq` (`Props/C18Parse.parseSeq_fuel`: an
+    opening `(` or `[` costs two units for one character), so the fuel error is never a result (`parse_total`) -/
+def parseCharsD (d : Dialect) (cs : List Char) : Except ReErr Pat :=
+  match parseSeq d (2 * cs.length + 4) false [] [] cs with
   | .ok (p, _) => .ok p
   | .error e => .error e
+
+/-- XSD -/
+def parseChars (cs : List Char) : Except ReErr Pat := parseCharsD .xsd cs
 
 /-- `parseXsd`: UTF-8 bytes of a YANG `pattern` argument ↦ syntax tree -/
 def parseXsd (bs : Bytes) : Except ReErr Pat :=
